@@ -136,3 +136,42 @@ Example f5_history_fixed :
   trun f5_cfg (tinit true f5_now 2) f5_history =
     [TR true true true; TR true true true; TR false true true; TR false true true].
 Proof. vm_compute. reflexivity. Qed.
+
+(* ------------------------------------------------------------------ F25 (fixed in /repo: 9e9cefb)
+   The rescue limiter was xrate.NewLimiter(xrate.Every(time.Second/time.Duration(rate)), burst):
+   one token per floor(10^9/rate) ns, i.e. faster than `rate` whenever rate does not divide 10^9.
+   Model.local_run is that bucket.  Rate 300000 / burst 3000300: the bucket is drained, and 10 s
+   later it is full again (10^10 / 3333 >= 3000300) although only 3000000 tokens are due:
+   6000600 tokens granted in 10 s, the property's bound is 3000300 + 300000*10 = 6000300.
+   (Replayed on the real code at the pinned commit: both calls granted.) *)
+Theorem rescue_truncated_interval_refuted :
+  exists rt bs calls, 1 <= rt <= 1000000000 /\ 0 <= bs /\
+    let gs := local_run rt bs (mkB (bs * interval_ns rt) 0) calls in
+    gs = [true; true] /\
+    local_granted calls gs * 1000000000 > bs * 1000000000 + rt * 10000000000.
+Proof.
+  exists 300000, 3000300, [(0, 3000300); (10000000000, 3000300)].
+  vm_compute. repeat split; discriminate.
+Qed.
+
+(* ------------------------------------------------------------------ unsynchronised clocks
+   The hypothesis "the caller-supplied now is the store's clock" (twf) of token_joint_bound cannot
+   be dropped: the script stores the caller's `now` as the bucket's timestamp even when it is
+   OLDER than the stored one, so two instances whose clocks differ by 10 s refill the bucket at
+   every alternation.  Rate 1 / burst 5, the store clock does not move at all: 20 tokens granted,
+   all by the script; the bound is 5 + 1*0 on the store clock and 5 + 1*10 even if the spread of
+   the callers' clocks is counted as elapsed time.  (The real code agrees with the model on this
+   history: corpus case "skew" of tools/props/c03.py.) *)
+Definition skew_cfg := mkCfg 1 5 (BStr "{tk}.tokens") (BStr "{tk}.ts").
+Definition skew_T := 1700000000000.
+Definition skew_history : list top :=
+  [TAllow 0 skew_T 5 false true; TAllow 1 (skew_T + 10000) 5 false true;
+   TAllow 0 skew_T 0 false true; TAllow 1 (skew_T + 10000) 5 false true;
+   TAllow 0 skew_T 0 false true; TAllow 1 (skew_T + 10000) 5 false true].
+Theorem token_unsynchronised_clocks_refuted :
+  telapsed skew_history = 0 /\ twf skew_T skew_history = false /\
+  trun skew_cfg (tinit true skew_T 2) skew_history =
+    [TR true true true; TR true true true; TR true true true; TR true true true; TR true true true; TR true true true] /\
+  granted_by_script skew_history (trun skew_cfg (tinit true skew_T 2) skew_history) = 20 /\
+  burst skew_cfg + rate skew_cfg * 10 < 20.
+Proof. vm_compute. repeat split; reflexivity. Qed.
